@@ -220,6 +220,12 @@ func run(c *eng.Ctx, mem bool) error {
 	defer os.RemoveAll(root)
 	const nk = 4
 	c.Traces(n, func(t int, rng *rand.Rand) {
+		// a panic inside the store is an event no specification action explains (=> the trace is rejected), not a harness failure
+		defer func() {
+			if r := recover(); r != nil {
+				c.W.Ev("Panic", "what", fmt.Sprint(r))
+			}
+		}()
 		caps := []uint64{1, 3, 4, 8}
 		capv := caps[rng.Intn(len(caps))]
 		var s bs
